@@ -2,13 +2,13 @@
   Property C16 — Mesh equality is sound, symmetric and independent of the mesh representation.
   Only property theorems live here; helper lemmas are in FcProofs/Lemmas/{MeshEqual,StructuredEq}.lean.
 
-  Model:  `Fc.equals : AnyMesh → AnyMesh → Verdict`   (FcModel/StructuredEq.lean) over the five representations
+  Model:  `Fc.C16.equals : AnyMesh → AnyMesh → Verdict`   (FcModel/StructuredEq.lean) over the five representations
           explicit `Mesh` (`meshEqual`: the smaller tolerance of both sides), `PermutedMesh` (`permutedEqual`: the
           receiver's tolerances), `ImageMesh` / `RectilinearMesh` / `StructuredMesh` (parameter short-cuts with
           the receiver's tolerances for two meshes of the same class, `mesh_equal` on the generated points and
           connectivity otherwise).
-  Spec:   `Fc.Spec.meshEqualSpec`, `Spec.rectParamsWithin`, `Spec.structParamsWithin`, `Spec.imageParamsWithin`.
-  Table:  `Fc.Gen.compatPairs`, `Gen.compatIdPairs`, `Gen.cellTypeTable` — regenerated from the source on every run.
+  Spec:   `Fc.C03.meshEqualSpec`, `Fc.C16.rectParamsWithin`, `structParamsWithin`, `imageParamsWithin`.
+  Table:  `Fc.Gen.C16.compatPairs`, `Gen.C16.compatIdPairs`, `Gen.C16.cellTypeTable` — regenerated from the source on every run.
 
   Findings that restrict theorems here (see NOTES_C16.md):
     F7   ImageMesh.equals compares spacing / basis with the coordinate-scaled absolute tolerance
@@ -18,13 +18,13 @@
 -/
 import FcProofs.Lemmas.StructuredEq
 namespace Fc
-open Spec
+open Fc.Spec Fc.C03 Fc.C16
 
 /-! ### facts about the regenerated tables -/
 
 /-- pixel~quad and voxel~hexahedron are interchangeable — and nothing else -/
 theorem C16_compat_table :
-    Gen.compatPairs = [("QUAD", "PIXEL"), ("PIXEL", "QUAD"), ("HEXAHEDRON", "VOXEL"), ("VOXEL", "HEXAHEDRON")] := by
+    Gen.C16.compatPairs = [("QUAD", "PIXEL"), ("PIXEL", "QUAD"), ("HEXAHEDRON", "VOXEL"), ("VOXEL", "HEXAHEDRON")] := by
   decide
 
 /-- `is_compatible_with` is symmetric -/
@@ -38,11 +38,11 @@ theorem C16_compat_functional (c t t' : String) (h1 : compatible c t = true) (h2
 /-- names and VTK ids are interchangeable: both columns of the cell-type table are duplicate-free and the
     name-level compatibility pairs are the id-level pairs read through the table -/
 theorem C16_compat_ids :
-    (Gen.cellTypeTable.map (·.1)).Nodup ∧ (Gen.cellTypeTable.map (·.2)).Nodup ∧
-    Gen.compatIdPairs.map (fun p => (cellTypeId "QUAD" == some p.1 || cellTypeId "PIXEL" == some p.1 ||
+    (Gen.C16.cellTypeTable.map (·.1)).Nodup ∧ (Gen.C16.cellTypeTable.map (·.2)).Nodup ∧
+    Gen.C16.compatIdPairs.map (fun p => (cellTypeId "QUAD" == some p.1 || cellTypeId "PIXEL" == some p.1 ||
         cellTypeId "HEXAHEDRON" == some p.1 || cellTypeId "VOXEL" == some p.1)) = [true, true, true, true] ∧
-    Gen.compatPairs.map (fun p => (cellTypeId p.1, cellTypeId p.2)) =
-      Gen.compatIdPairs.map (fun p => (some p.1, some p.2)) := by
+    Gen.C16.compatPairs.map (fun p => (cellTypeId p.1, cellTypeId p.2)) =
+      Gen.C16.compatIdPairs.map (fun p => (some p.1, some p.2)) := by
   decide
 
 /-! ### explicit meshes: sound, total, symmetric -/
@@ -50,11 +50,11 @@ theorem C16_compat_ids :
 /-- **C16 (sound).**  Two explicit meshes compare equal only if they have the same number of points, all
     coordinates in all columns agree within the (smaller) tolerance, and for every cell type — pixel~quad,
     voxel~hexahedron interchangeable — both have the same cells, in both directions over the type sets. -/
-theorem C16_sound (a b : TMesh) (ha : a.mesh.wfEq = true) (hb : b.mesh.wfEq = true)
+theorem C16_sound (a b : TMesh) (ha : (wfEq a.mesh) = true) (hb : (wfEq b.mesh) = true)
     (h : equals (.explicit a) (.explicit b) = .ok true) :
     (a.mesh.numPoints = b.mesh.numPoints ∧ a.mesh.dim = b.mesh.dim ∧
       ∀ i j, i < a.mesh.numPoints → j < a.mesh.dim →
-        docFormula f64 (a.mesh.coord i j) (b.mesh.coord i j) (min a.rel b.rel) (min a.abs b.abs) = true) ∧
+        docFormula f64 (coord a.mesh i j) (coord b.mesh i j) (min a.rel b.rel) (min a.abs b.abs) = true) ∧
     (∀ c ∈ a.mesh.cellTypes, ∃ t ∈ b.mesh.cellTypes, Partner a.mesh b.mesh c t ∧
       CellsMatch (a.mesh.cellsOf c) (b.mesh.cellsOf t)) ∧
     (∀ t ∈ b.mesh.cellTypes, ∃ c ∈ a.mesh.cellTypes, Partner a.mesh b.mesh c t ∧
@@ -163,8 +163,8 @@ theorem C16_structured_sound_rect (a b : RectGrid) (h : rectEquals a b = .ok tru
   have hz := (fuzzyOk_vec_iff _ _ _ _).mp (hords 2 (by omega))
   have hclose := rectPoints_close a.rel a.abs _ _ _ _ _ _ hx hy hz
   unfold meshEqualWith
-  have hp : fuzzyCheck (.num a.rel) (.num a.abs) a.toMesh.pointArr b.toMesh.pointArr = .ok true := by
-    unfold Mesh.pointArr RectGrid.toMesh
+  have hp : fuzzyCheck (.num a.rel) (.num a.abs) (pointArr a.toMesh) (pointArr b.toMesh) = .ok true := by
+    unfold pointArr RectGrid.toMesh
     exact fuzzyOk_points_of_close a.rel a.abs 3 _ _ hclose
   rw [hp]
   apply cellsEqual_same _ _ (RectGrid.toMesh_wfEq a) (RectGrid.toMesh_wfEq b)
@@ -176,13 +176,13 @@ theorem C16_structured_sound_struct (a b : StructGrid) (ha : a.ok = true) (hb : 
     (h : structEquals a b = .ok true) :
     meshEqualWith a.rel a.abs a.toMesh b.toMesh = .ok true := by
   rw [structEquals_eq] at h
-  have h' : basicGridEq a.ext b.ext = true ∧ fuzzyOk a.rel a.abs a.toMesh.pointArr b.toMesh.pointArr = true := by
+  have h' : basicGridEq a.ext b.ext = true ∧ fuzzyOk a.rel a.abs (pointArr a.toMesh) (pointArr b.toMesh) = true := by
     simpa using h
   obtain ⟨hbasic, hpts⟩ := h'
   have hext : a.ext = b.ext := by
     unfold basicGridEq at hbasic; simp only [Bool.and_eq_true, beq_iff_eq] at hbasic; exact hbasic.1
   unfold meshEqualWith
-  have hp : fuzzyCheck (.num a.rel) (.num a.abs) a.toMesh.pointArr b.toMesh.pointArr = .ok true := by
+  have hp : fuzzyCheck (.num a.rel) (.num a.abs) (pointArr a.toMesh) (pointArr b.toMesh) = .ok true := by
     unfold fuzzyOk at hpts; simpa using hpts
   rw [hp]
   apply cellsEqual_same _ _ (StructGrid.toMesh_wfEq a ha) (StructGrid.toMesh_wfEq b hb)
@@ -234,7 +234,7 @@ theorem C16_structured_complete_struct (a b : StructGrid) (ha : a.ok = true) (hb
     structEquals a b = .ok (structParamsWithin a.rel a.abs a b) := by
   rw [structEquals_eq]
   congr 1
-  unfold basicGridEq structParamsWithin fuzzyOk Mesh.pointArr StructGrid.toMesh listWithin
+  unfold basicGridEq structParamsWithin fuzzyOk pointArr StructGrid.toMesh listWithin
   simp only
   rw [fuzzyCheck_num_f64 _ _ _ _ _ _ (by simp), verdict_ok_beq, points_flat_length a ha, points_flat_length b hb]
   unfold fuzzyList
